@@ -22,8 +22,10 @@ SEM_OPS = (["acquire", "S"], ["acquire_nowait", "S"], ["release", "S"], ["pc", [
 
 
 class SemModel(Model):
-    def __init__(self, n=3, value=1, max=None, fast=False, adapter=False):
-        super().__init__(n=n, value=value, max=max, fast=fast, adapter=adapter)
+    def __init__(self, n=3, value=1, max=None, fast=False, adapter=False, dirty=False):
+        super().__init__(n=n, value=value, max=max, fast=fast, adapter=adapter,
+                         **({"dirty": True} if dirty else {}))
+        self.ops = SEM_OPS + ((["dirty", ["acquire", "S"]],) if dirty else ())
         self.actors = ["A", "B", "C", "D"][:n]
         self.objects = {"S": ["sem", {"value": value, "max": max, "fast": fast,
                                       "adapter": adapter}]}
@@ -36,7 +38,7 @@ class SemModel(Model):
         cap = info["obs"]["S"]["value"] >= self.value + 2  # bound "extra releases"
         for a in self.actors:
             if info["actors"][a] is None:
-                evs.extend(["cmd", a, op] for op in SEM_OPS
+                evs.extend(["cmd", a, op] for op in self.ops
                            if not (cap and op[0] == "release"))
             else:
                 evs.append(["cancel", a])
@@ -50,7 +52,7 @@ class SemModel(Model):
             evs.append(["cancel", a])
             evs.append(["ncancel", a])
             if info["actors"][a] is None and not (e1[0] == "cmd" and e1[1] == a):
-                evs.extend(["cmd", a, op] for op in SEM_OPS
+                evs.extend(["cmd", a, op] for op in self.ops
                            if not (cap and op[0] == "release"))
         return evs
 
